@@ -30,7 +30,8 @@ import vlib
 
 GROUP = 'undo'
 TRUSTED = ['the Python undo-stack oracle of tools/props/c04.py (a list of earlier texts keyed by command number; one such list per buffer in the several-buffer stream, buffers recognised by a tag in every line)',
-           'ocaml/drv_undobufs.ml (driver of the extracted several-buffer model); in that correspondence an editing command is abstracted to one lbuf_edit call carrying the text observed after it']
+           'ocaml/drv_undobufs.ml (driver of the extracted several-buffer model); in that correspondence an editing command is abstracted to one lbuf_edit call carrying the text observed after it',
+           'tools/c2clite.py + clang -ast-dump=json (syntax printer of the translated lbuf.c functions lbuf_replace, lbuf_opt, lbuf_edit, lbuf_undo, lbuf_redo, lopt_done, linecount, the mark helpers, and uc.c uc_dup) and the C semantics fixed in coq/CLite.v (incl. the builtin BMemsetI for memset on an int array); in the theorems about the undo bookkeeping (C04_tr_lbuf_opt / _edit / _undo / _redo) lbuf_replace and lbuf_cp are oracles (replace_oracle, cp_oracle) and a buffer with hist == NULL is not covered (memcpy(hist, NULL, 0))']
 
 # ---------------------------------------------------------------------------------------------
 # line-buffer level
